@@ -167,6 +167,21 @@ def make_callable(fid: str, fd: dict):
     pairs = ", ".join(f"{p!r}: {n}" for p, n in zip(fd["params"], names))
     sig = names + (["res"] if fd.get("rescpus") else [])
     extra = ", res" if fd.get("rescpus") else ""
+    if fd.get("dataclass") and len(fd["outputs"]) == 1 and not fd.get("retnone") and not fd.get("rescpus"):
+        # a DATACLASS as the pipeline function: constructing it is the call, the instance is the result (it carries the term).
+        # Every parameter with a default in the description ALSO has a (different) field default on the dataclass: the
+        # explicit PipeFunc default must win.
+        lines = ["import dataclasses", "@dataclasses.dataclass(kw_only=True)", f"class {fd['name']}:"]
+        for p_, n in zip(fd["params"], names):
+            dflt = " = dataclasses.field(default_factory=lambda: _b.Term('@dcfield_" + n + "'))" if p_ in (fd.get("defaults") or {}) else ""
+            lines.append(f"    {n}: object{dflt}")
+        lines += ["    def __post_init__(self):",
+                  f"        self._pfverif_term = _b.invoke({fid!r}, {{" + ", ".join(f"{p_!r}: self.{n}" for p_, n in zip(fd["params"], names)) + "})"]
+        ns = {"_b": __import__("pfverif.build", fromlist=["x"])}
+        exec("\n".join(lines), ns)  # noqa: S102
+        cls = ns[fd["name"]]
+        cls.__module__ = "pfverif_user"
+        return cls
     pyname = fd.get("pyname") or fd["name"]      # `pyname`: several functions of a pipeline may share one Python __name__
     src = (f"def {pyname}({', '.join(sig)}):\n"
            f"    from pfverif import build as _b\n"
